@@ -24,6 +24,10 @@ type supportedFeatures struct {
 	otherwiseOn bool
 	enabled     map[string]*Feature
 	cache       map[string]bool
+
+	// features that are on, module by module. a module and the modules it imports
+	// can each have a feature of the same name
+	perModule map[*Module]map[string]*Feature
 }
 
 func (self *supportedFeatures) Initialize(m *Module) error {
@@ -63,6 +67,14 @@ func (self *supportedFeatures) Initialize(m *Module) error {
 			}
 		}
 	}
+	if self.perModule == nil {
+		self.perModule = make(map[*Module]map[string]*Feature)
+	}
+	own := make(map[string]*Feature, len(enabled))
+	for id, f := range enabled {
+		own[id] = f
+	}
+	self.perModule[m] = own
 	if self.enabled == nil {
 		self.enabled = enabled
 	} else {
@@ -74,14 +86,34 @@ func (self *supportedFeatures) Initialize(m *Module) error {
 }
 
 func (self *supportedFeatures) Resolve(f *IfFeature) (bool, error) {
-	if on, found := self.cache[f.Expression()]; found {
+	enabled := self.enabled
+	key := f.Expression()
+	if f.parent != nil {
+		if mod := RootModule(f.parent); mod != nil {
+			if own, known := self.perModule[mod]; known {
+				// names without a prefix are the module's own features, the features of an
+				// imported module go by the prefix of the import
+				key = mod.ident + " " + key
+				enabled = make(map[string]*Feature, len(own))
+				for id, feature := range own {
+					enabled[id] = feature
+				}
+				for prefix, imp := range mod.imports {
+					for id, feature := range self.perModule[imp.module] {
+						enabled[prefix+":"+id] = feature
+					}
+				}
+			}
+		}
+	}
+	if on, found := self.cache[key]; found {
 		return on, nil
 	}
-	on, err := f.Evaluate(self.enabled)
+	on, err := f.Evaluate(enabled)
 	if err != nil {
 		return false, err
 	}
-	self.cache[f.Expression()] = on
+	self.cache[key] = on
 	return on, err
 }
 
